@@ -14,7 +14,7 @@ RULE = (
     "non-trivial = a (scenario, fault point) pair whose survivor was read back; distinct = distinct event digests of scenarios."
 )
 PROBES = ["K>=4", "multi-output-crashed-between-files", "sub-byte-torn-mid-sample", "crash-during-second-batch",
-          "W1-points", "W2-points", "W3-points", "W5-points", "truncations", "survivor-read_plan", "pre-existing-output-run", "big-writes"] + [
+          "W1-points", "W2-points", "W3-points", "W5-points", "truncations", "survivor-read_plan", "pre-existing-output-run", "big-writes", "in-flight-states-inside-a-write"] + [
     f"writer:{w}" for w in ["invert_freq", "apply_channel_mask", "extract_samps", "extract_chans", "extract_bands",
                             "downsample", "subband", "remove_zerodm", "clean_rfi", "to_file", "to_tim", "to_spec"]]
 COMPONENTS = {
